@@ -232,3 +232,11 @@ package origins
 //@   trusted recursive rendering with string concatenation (node.elems): outside the subset; bounded stand-in: the C01 harness runs Elems on every enumerated tree and re-parses its output
 //@   requires t != nil
 //@   allocs <= 1
+
+//@ func deleteSameSign
+//@   props C01 C17
+//@   pure
+//@   allocs <= 0
+//@   requires SortedInts(s)
+//@   ensures v < 0 ==> (forall k :: 0 <= k && k < len(result) ==> result[k] >= 0) && len(result) <= len(s)
+//@   ensures v >= 0 ==> (forall k :: 0 <= k && k < len(result) ==> result[k] < 0) && len(result) <= len(s)
